@@ -349,6 +349,10 @@ func exprPoly(info *types.Info, e ast.Expr, defs map[types.Object]localDef, stop
 		if v, ok := constantInt(tv); ok {
 			return polyConst(v), true
 		}
+		// integer constants beyond int64 (2^64-1 and the like): exact literal atoms
+		if b, ok := tv.Type.Underlying().(*types.Basic); ok && b.Info()&types.IsInteger != 0 {
+			return polyAtom("const" + tv.Value.ExactString()), true
+		}
 	}
 	if id, isId := e.(*ast.Ident); isId && polyAbstract {
 		if d, ok := defs[info.Uses[id]]; ok && d.pos == 0 && !stop[id.Name] {
@@ -381,7 +385,16 @@ func exprPoly(info *types.Info, e ast.Expr, defs map[types.Object]localDef, stop
 		return polyAtom(types.ExprString(x)), true
 	case *ast.CallExpr:
 		if isConversion(info, x) && len(x.Args) == 1 {
-			return exprPoly(info, x.Args[0], defs, stop, depth+1)
+			inner, ok := exprPoly(info, x.Args[0], defs, stop, depth+1)
+			if !ok {
+				return nil, false
+			}
+			// a conversion to a NARROWER integer type truncates: keep it as an ordered opaque atom, so that
+			// uint32(x>>8) and uint32(x)>>8 stay different; widening/same-size conversions are identities here
+			if w := narrowing(info, x); w != "" {
+				return polyAtom(w + "(" + strings.NewReplacer("*", "\u00b7", " ", "").Replace(inner.String()) + ")"), true
+			}
+			return inner, true
 		}
 		if id, ok := x.Fun.(*ast.Ident); ok && id.Name == "len" && len(x.Args) == 1 {
 			if polyAbstract {
@@ -698,4 +711,32 @@ func absName(info *types.Info, e ast.Expr) string {
 		return tv.Value.ExactString()
 	}
 	return strings.ReplaceAll(types.ExprString(e), " ", "")
+}
+
+func intBits(t types.Type) int {
+	b, ok := t.Underlying().(*types.Basic)
+	if !ok || b.Info()&types.IsInteger == 0 {
+		return 0
+	}
+	switch b.Kind() {
+	case types.Int8, types.Uint8:
+		return 8
+	case types.Int16, types.Uint16:
+		return 16
+	case types.Int32, types.Uint32:
+		return 32
+	}
+	return 64
+}
+
+// narrowing returns the target type's name when the conversion drops high bits of an integer operand.
+func narrowing(info *types.Info, call *ast.CallExpr) string {
+	to, from := intBits(info.TypeOf(call.Fun)), intBits(info.TypeOf(call.Args[0]))
+	if to == 0 || from == 0 || to >= from {
+		return ""
+	}
+	if tv, ok := info.Types[call.Args[0]]; ok && tv.Value != nil {
+		return ""
+	}
+	return fmt.Sprintf("trunc%d", to)
 }
